@@ -140,12 +140,13 @@ class EvalMixin:
             ts = [self.truthiness(v, s) for v in vals]
             if isinstance(node.op, ast.Or):
                 res = TOP
-                for v, t in zip(vals, ts):
+                for i, (v, t) in enumerate(zip(vals, ts)):
                     if t is True:
                         res = v
                         break
                     if t is None:
-                        res = TOP
+                        # `x or <falsy default>` keeps the shape of x
+                        res = v if all(tt is False for tt in ts[i + 1:]) and isinstance(v, (ListV, Ref)) else TOP
                         break
                 else:
                     res = vals[-1]
@@ -378,15 +379,9 @@ class EvalMixin:
             statuses = []
             for oid, o in st.objs.items():
                 sv = o.get("status")
-                if isinstance(sv, StatusV):
-                    statuses.append((self.desc(st, Ref(oid)), o.kind, o.origin, sv.members))
-            extra = []
-            for oid, o in st.objs.items():
-                for k, v in o.attrs:
-                    if isinstance(v, Const) and k != "status":
-                        extra.append((self.desc(st, Ref(oid)), k, v.value))
-            st.emit(ev("call", self.site(st, node), name=name, ctx=self.ctx(st), statuses=tuple(statuses),
-                       facts=tuple(sorted(st.facts.items())), attrs=tuple(extra), in_txn=bool(st.txn), text=" ".join(ast.unparse(node).split())[:200]))
+                if isinstance(sv, StatusV) and len(sv.members) < len(self.ALL):
+                    statuses.append((str(oid), o.kind, sv.members))
+            st.emit(ev("call", self.site(st, node), name=name, ctx=self.ctx(st), statuses=tuple(sorted(statuses)), in_txn=bool(st.txn)))
 
     def e_Call(self, node: ast.Call, st: State, abrupt: list) -> list:
         f = node.func
@@ -522,7 +517,7 @@ class EvalMixin:
             s_fail = st.copy()
             s_fail.emit(ev("cas_fail", site, tid=txn.tid, **info))
             abrupt.append((s_fail, Outcome("raise", TOP, "ConcurrencyError")))
-            st.emit(ev("store_stage", site, tid=txn.tid, expected=(exp.value if isinstance(exp, Const) else self.desc(st, exp)), loop=st.loop > 0, ctx=self.ctx(st), **info))
+            st.emit(ev("store_stage", site, tid=txn.tid, expected=(exp.value if isinstance(exp, Const) else self.desc(st, exp)), loop=st.lp(), ctx=self.ctx(st), **info))
             return [(st, Const(None))]
         if attr == "update_workflow_status":
             obj = args[0] if args else kwargs.get("workflow")
@@ -535,7 +530,7 @@ class EvalMixin:
         if attr == "push_message":
             m = args[0] if args else kwargs.get("message")
             delay = args[1] if len(args) > 1 else kwargs.get("delay")
-            st.emit(ev("push", site, tid=txn.tid, via="txn", delayed=delay is not None and delay != Const(0), loop=st.loop > 0, ctx=self.ctx(st), **self._msg_info(st, m)))
+            st.emit(ev("push", site, tid=txn.tid, via="txn", delayed=_delayed(delay), loop=st.lp(), ctx=self.ctx(st), **self._msg_info(st, m)))
             return [(st, Const(None))]
         if attr == "mark_message_processed":
             mid = kwargs.get("message_id", args[0] if args else None)
@@ -568,7 +563,7 @@ class EvalMixin:
                     s_fail = st.copy()
                     abrupt.append((s_fail, Outcome("raise", TOP, MAY_RAISE[("store", attr)])))
                 exp = kwargs.get("expected_phase")
-                st.emit(ev("auto", site, api=f"store.{attr}", in_txn=bool(st.txn), loop=st.loop > 0, ctx=self.ctx(st),
+                st.emit(ev("auto", site, api=f"store.{attr}", in_txn=bool(st.txn), loop=st.lp(), ctx=self.ctx(st),
                            expected=None if exp is None else (exp.value if isinstance(exp, Const) else self.desc(st, exp)), **info))
                 return [(st, TOP)]
             # reads
@@ -590,11 +585,11 @@ class EvalMixin:
                 m = args[0] if args else kwargs.get("message")
                 delay = args[1] if len(args) > 1 else kwargs.get("delay")
                 conn = kwargs.get("connection")
-                st.emit(ev("auto", site, api="queue.push", in_txn=bool(st.txn), loop=st.loop > 0, ctx=self.ctx(st), connection=conn is not None,
-                           delayed=delay is not None, **self._msg_info(st, m)))
+                st.emit(ev("auto", site, api="queue.push", in_txn=bool(st.txn), loop=st.lp(), ctx=self.ctx(st), connection=conn is not None,
+                           delayed=_delayed(delay), **self._msg_info(st, m)))
                 return [(st, Const(None))]
             if attr in QUEUE_MUTATORS:
-                st.emit(ev("auto", site, api=f"queue.{attr}", in_txn=bool(st.txn), loop=st.loop > 0, ctx=self.ctx(st)))
+                st.emit(ev("auto", site, api=f"queue.{attr}", in_txn=bool(st.txn), loop=st.lp(), ctx=self.ctx(st)))
                 return [(st, TOP)]
             if attr == "has_pending_message_for_task":
                 a = self.desc(st, args[0]) if args else "?"
@@ -608,7 +603,7 @@ class EvalMixin:
                     o = st.objs[obj.oid]
                     sv = o.get("status")
                     info = {"oid": obj.oid, "okind": o.kind, "status": sv.members if isinstance(sv, StatusV) else self.ALL}
-                st.emit(ev("event", site, name=attr, in_txn=bool(st.txn), tid=st.txn[-1] if st.txn else 0, loop=st.loop > 0, ctx=self.ctx(st), **info))
+                st.emit(ev("event", site, name=attr, in_txn=bool(st.txn), tid=st.txn[-1] if st.txn else 0, loop=st.lp(), ctx=self.ctx(st), **info))
                 return [(st, Const(None))]
             return [(st, TOP)]
         return [(st, TOP)]
@@ -768,6 +763,8 @@ class EvalMixin:
 
     def gc(self, st: State, extra=None, keep: frozenset = frozenset()) -> None:
         """Drop heap objects unreachable from any frame (keeps path states mergeable)."""
+        if len(st.objs) <= len(keep) and all(k in keep for k in st.objs):
+            return
         live: set[int] = set()
         work = []
 
@@ -864,6 +861,14 @@ class EvalMixin:
                 legal_to = frozenset(t for t in to if any(t == f or t in self.T.transitions.get(f, frozenset()) for f in legal_from))
                 if legal_to:
                     self.assign_name_keep_facts(st, new_expr.id, StatusV(legal_to))
+
+
+def _delayed(delay) -> str:
+    if delay is None or (isinstance(delay, Const) and not delay.value):
+        return "no"
+    if isinstance(delay, Const):
+        return "yes"
+    return "maybe"
 
 
 def _dedupe_pairs(pairs: list) -> list:
